@@ -913,10 +913,18 @@ fn run_real(c: &RealCase, id: usize, work: &Path) -> Result<RealRun, String> {
         if !((gi - gf).abs() <= 0.005 * gf.max(1.0)) {
             hygiene = false;
         }
-        // what consistency needs, in the search direction: gc(u, t) <= len + gc(v, t)
-        let (u, v) = if c.reverse { (*d, *s) } else { (*s, *d) };
-        if !(impl_gc(c.coords[u], c.coords[c.t]) <= *len + impl_gc(c.coords[v], c.coords[c.t])) || *len < gi.max(gf) {
+        // the property's hypothesis is about the TRUE great-circle distance (the independent value; the implementation's
+        // must agree with it - hygiene - and is never used to decide whether a claim is made): length >= distance, with
+        // half a metre for the f32 noise of the estimate.  The triangle inequality then holds by itself.
+        if !(*len >= gf + 0.5) {
             metric_ok = false;
+        }
+    }
+    // the estimate reads the distance of every vertex to the target: the same hygiene bound there
+    for v in 0..c.coords.len() {
+        let (gi, gf) = (impl_gc(c.coords[v], c.coords[c.t]), great_circle_f64(c.coords[v], c.coords[c.t]));
+        if !((gi - gf).abs() <= 0.005 * gf.max(1.0)) {
+            hygiene = false;
         }
     }
     let sum_agg = !eff_mul;
@@ -927,6 +935,8 @@ fn run_real(c: &RealCase, id: usize, work: &Path) -> Result<RealRun, String> {
     hist.push(format!("sequence_len:{}", if c.warm.is_empty() { 0 } else { c.warm.len() + 1 }));
     hist.push(format!("combined_rates:{}", has_combined));
     hist.push(format!("table_above_soft_max:{}", c.speed_model && c.edges.iter().any(|e| e.3 > match c.su.as_str() { "meters_per_second" => 33.528, "miles_per_hour" => 75.0, _ => 120.675 })));
+    hist.push(format!("crosses_antimeridian:{}", c.coords.iter().any(|p| p.0 > 179.0) && c.coords.iter().any(|p| p.0 < -179.0)));
+    hist.push(format!("surcharge_without_vehicle_rate:{}", match &c.cfg_n { Some((f, _)) => !eff_v.iter().any(|(k, r)| k == f && *r != Rate::Zero), None => false }));
     hist.push(format!("metric_ok:{}", metric_ok));
     hist.push(format!("as_claim:{}", as_claim));
     let show_rt = |tag: &str, r: &(String, Vec<usize>)| {
@@ -1126,6 +1136,18 @@ fn gen_objective(r: &mut Rng, c: &mut RealCase) {
             }
         }
         if !l.is_empty() {
+            // a third of the surcharge tables hang on a feature without a vehicle rate (absent, or Zero)
+            if r.chance(1, 3) && c.cfg_w.iter().any(|(k, x)| *k == f && *x > 0.0) && c.cfg_w.iter().any(|(k, x)| *k != f && *x > 0.0) {
+                if r.chance(1, 2) {
+                    c.cfg_v.retain(|(k, _)| *k != f);
+                } else {
+                    for (k, v) in c.cfg_v.iter_mut() {
+                        if *k == f {
+                            *v = Rate::Zero;
+                        }
+                    }
+                }
+            }
             c.cfg_n = Some((f, l));
         }
     }
@@ -1177,10 +1199,12 @@ fn blank_case(family: &str) -> RealCase {
 /// random network on the 1/8-degree grid; speeds in `su` from a small set; lengths metric (or not)
 fn gen_network(r: &mut Rng, c: &mut RealCase, metric: bool) {
     let n = r.range(4, 14) as usize;
-    let (lon0, lat0) = (q8(r, -120, 100), q8(r, -55, 55));
+    // a tenth of the random networks straddle the 180th meridian
+    let (lon0, lat0) = if r.chance(1, 10) { (179.625, q8(r, -55, 55)) } else { (q8(r, -120, 100), q8(r, -55, 55)) };
     let mut coords: Vec<(f64, f64)> = vec![];
     while coords.len() < n {
-        let p = (lon0 + r.range(0, 6) as f64 / 8.0, lat0 + r.range(0, 6) as f64 / 8.0);
+        let lon = lon0 + r.range(0, 6) as f64 / 8.0;
+        let p = (if lon > 180.0 { lon - 360.0 } else { lon }, lat0 + r.range(0, 6) as f64 / 8.0);
         if !coords.contains(&p) {
             coords.push(p);
         }
@@ -1248,6 +1272,27 @@ fn highway_network(c: &mut RealCase, extra_slow: usize, direct_speed: f64) {
     c.s = 0;
     c.t = 1;
     c.su = "kilometers_per_hour".into();
+}
+
+/// a network that straddles the 180th meridian: origin 0 and destination 1 at longitude 179.875, the best route goes
+/// through vertex 2 at longitude -179.875 (a quarter of a degree away, on the other side), the alternative through vertex
+/// 3 stays on the destination's side but is stretched x 2.  Lengths come from the INDEPENDENT great-circle distance only.
+fn antimeridian_network(c: &mut RealCase, lat: f64, reverse: bool) {
+    c.coords = vec![(179.875, lat), (179.875, lat + 0.25), (-179.875, lat + 0.125), (179.75, lat + 0.125), (-179.75, lat + 0.125)];
+    let mk = |a: usize, b: usize, stretch: f64, c: &RealCase| (a, b, (great_circle_f64(c.coords[a], c.coords[b]) * stretch).ceil() + 2.0, 50.0);
+    let mut es = vec![];
+    for (a, b, st) in [(0usize, 2usize, 1.0), (2, 1, 1.0), (0, 3, 2.0), (3, 1, 2.0), (2, 4, 1.0), (4, 2, 1.0)] {
+        es.push(mk(a, b, st, c));
+        es.push(mk(b, a, st, c));
+    }
+    c.edges = es;
+    c.s = 0;
+    c.t = 1;
+    c.su = "kilometers_per_hour".into();
+    c.reverse = reverse;
+    if reverse {
+        std::mem::swap(&mut c.s, &mut c.t);
+    }
 }
 
 /// highway_network with table rows far above the "soft maximum" of the speed unit: detour at `fast`, direct road at
@@ -1478,6 +1523,54 @@ fn real_boundary() -> Vec<RealCase> {
                 out.push(c);
             }
         }
+    }
+    // a surcharge table on a weighted feature that has NO vehicle rate (absent in the configuration, Zero, or left out by
+    // the query's own vehicle_rates map): the surcharge is still charged
+    for (name, cv, qv) in [
+        ("surcharge_feature_without_rate", vec![("time".to_string(), Rate::Raw)], None),
+        ("surcharge_feature_zero_rate", vec![("distance".to_string(), Rate::Zero), ("time".to_string(), Rate::Raw)], None),
+        ("surcharge_rate_dropped_by_query", raw(), Some(vec![("time".to_string(), Rate::Factor(2.0))])),
+    ] {
+        for reverse in [false, true] {
+            for sur_edge in [0usize, 1usize] {
+                let mut c = blank_case(name);
+                two_route_network(&mut c);
+                for e in c.edges.iter_mut() {
+                    e.3 = 50.0;
+                }
+                c.du = Some("kilometers".into());
+                c.tu = Some("minutes".into());
+                c.cfg_w = w(1.0, 1.0);
+                c.cfg_v = cv.clone();
+                c.q_v = qv.clone();
+                c.cfg_n = Some(("distance".to_string(), vec![(sur_edge, 500.0)]));
+                c.reverse = reverse;
+                if reverse {
+                    std::mem::swap(&mut c.s, &mut c.t);
+                }
+                out.push(c);
+            }
+        }
+    }
+    // across the 180th meridian: the great-circle estimate is periodic in longitude
+    for (speed_model, wf, reverse, lat) in [
+        (false, None, false, -17.0),
+        (false, Some(0.5), true, -17.0),
+        (true, None, true, 65.0),
+        (true, Some(0.5), false, 65.0),
+        (true, None, false, 0.0),
+        (false, None, true, 0.0),
+    ] {
+        let mut c = blank_case("antimeridian");
+        antimeridian_network(&mut c, lat, reverse);
+        c.speed_model = speed_model;
+        c.du = Some("kilometers".into());
+        c.fdu = Some("kilometers".into());
+        c.tu = Some("minutes".into());
+        c.cfg_w = if speed_model { w(0.0, 1.0) } else { vec![("distance".to_string(), 1.0)] };
+        c.cfg_v = if speed_model { raw() } else { vec![("distance".to_string(), Rate::Raw)] };
+        c.alg_wf = wf;
+        out.push(c);
     }
     // speed tables with rows far above 75 mph / 120.675 kph / 33.528 m/s, in every speed unit: the estimate must be taken at
     // the table's own maximum (and the engine's max_speed must BE that maximum)
